@@ -341,10 +341,12 @@ class Paraxial:
                 z0 = np.ones_like(y1) * z
 
             elif self.optic.field_type == 'angle':
-                y = -np.tan(np.radians(field_y))
+                # the object point is fixed: it lies where the chief ray of
+                # slope tan(field) through the entrance pupil centre starts
                 z = self.optic.surface_group.positions[0]
+                y = -np.tan(np.radians(field_y)) * (EPL - z)
 
-                y0 = y1 + y
+                y0 = np.ones_like(y1) * y
                 z0 = np.ones_like(y1) * z
 
         return y0, z0
